@@ -444,6 +444,7 @@ func genWire(r *rng, o *out, do func(string) string) {
 			t, _ := strconv.Atoi(f.tag)
 			do(fmt.Sprintf("%s %s %d", r.pick([]string{"get", "get", "geti", "has"}), r.pick([]string{"h", "b", "b", "t"}), t))
 		}
+		do("bytes") // still the bytes that were parsed, whatever the reader of the values did with them
 		do("rebuild")
 	}
 	// every single-field corruption of BodyLength and of the leading order
